@@ -341,9 +341,18 @@ static void on_unexpected_abort(int sig)
   raise(sig);
 }
 
+/** a `tsigx` signal fires inside the stop / exit that follows it; once the handler's flush has been served that stop
+    returns, and the thread that called it must not race the signalled thread to the end of the process */
+static void park_if_armed()
+{
+  for (int t = 0; t < MAXT; ++t)
+    if (arm_sig[t].load() > 0) for (;;) pause();
+}
+
 static int run(Case const& c, std::string const& scratch, int fd)
 {
   report_fd = fd;
+  atexit(park_if_armed);   // registered first = runs after the library's own exit handler
   prctl(PR_SET_PDEATHSIG, SIGKILL);
   setenv("LIBC_FATAL_STDERR_", "1", 1);   // glibc's own fatal messages (malloc checks) go to stderr, not /dev/tty
   signal(SIGABRT, on_unexpected_abort);
@@ -438,6 +447,7 @@ static int run(Case const& c, std::string const& scratch, int fd)
       bool was_running = quill::Backend::is_running();
       snap(k);
       quill::Backend::stop();
+      park_if_armed();
       std::vector<int> m;
       bool ok = scan_file(m);
       std::string s = "STOPSCAN " + std::to_string(k) + " m=";
